@@ -11,6 +11,11 @@
    correspondence run (gofmt -l and go build of every generated package), which
    is why this property is labelled partial.
 
+   The theorems are about TEMPLATE-DATA RECORDS (what the analysis hands to the template): that their
+   hypotheses follow from the input package is not proved here (no theorem composes a generator model with a
+   skeleton); C01_files_compose assumes the disjointness of the files' declarations, which is not proved for
+   two types in general (and is false for type names with one camelCaseGO form, or -short options).
+
    Domains: all template data records (any type name, any field/constant/method
    name lists, every flag combination), any hand-written declaration list, any
    command line, any version string.  Each theorem is closed by [exact] of a
